@@ -35,6 +35,8 @@ inductive PyErr where
   | NoLogicAvailableError | UndefinedLogicError | IndexError
 deriving DecidableEq, Repr
 
+deriving instance DecidableEq for Except
+
 /-- `xs[0]` -/
 def pyIndex0 {α : Type} : List α → Except PyErr α
   | [] => .error .IndexError
@@ -884,6 +886,8 @@ def generate(repo):
     allv = sorted(ident_of)
     t2.append("/-- every distinct named logic of the module (including the `Auto` marker and constants that "
               "are in no set) -/\ndef ALL_NAMED : List Logic := [%s]\n" % ", ".join(ident_of[v] for v in allv))
+    t2.append("/-- the module-level sets by their Python name -/\ndef SETS : List (String × List Logic) := [%s]\n"
+              % ", ".join('("%s", %s)' % (k, lean_ident(k)) for k in sorted(table_sets)))
     for n in order:
         if needs[n]:
             t2.append(text[n])
